@@ -461,6 +461,9 @@ func (w *worker) process(in input, seed uint64, sampleMod uint32) {
 				if _, ok := ifEmbeddable(src); ok {
 					w.dist["linted_as_if_condition"]++
 					lr = ifOracle(w.linter, src, ir)
+				} else if _, _, ok := ifQuoted(src); ok {
+					w.dist["linted_as_quoted_if_condition"]++
+					lr = ifOracle(w.linter, src, ir)
 				}
 			}
 			if !lr.ok {
@@ -549,7 +552,9 @@ func main() {
 			lr := lintOracle(newLinter(), f.Input, ir)
 			fmt.Printf("through Linter.Lint (text embedded after ${{ in a workflow): %s\n", lr.got)
 			if lr.ok {
-				if _, ok := ifEmbeddable(f.Input); ok {
+				_, okp := ifEmbeddable(f.Input)
+				_, _, okq := ifQuoted(f.Input)
+				if okp || okq {
 					lr = ifOracle(newLinter(), f.Input, ir)
 					fmt.Printf("through Linter.Lint (text as an if: condition): %s\n", lr.got)
 				}
@@ -611,6 +616,11 @@ func main() {
 	for _, s := range []string{"1e+5", "1E+5", "1e05", "0e00", "0x0a", "0x00", "2147483648", "-2147483649", "1e999", "a.1", "f(a,)", "0123", "1.", "1.a", "a b $", "a $", "TRUE", "true", "a && b || c", "a || b && c", "!a == b", "a < b < c", "a.b.*[0].c", "f()", "f(1, 'x', g(h))", "(a)", "((a)", "a[", "a.*.b", "-", "--1", "0x", "0x1g", "'it''s'", "'abc", "\"s\"", "a\tb", "1e+", "1e+5x", "a }} b"} {
 		emit(input{s + "}}", "corpus"})
 		emit(input{" " + s + " }}", "corpus"})
+	}
+	// white space only, and white space around the smallest sentences (as an if: condition these
+	// are written as quoted scalars)
+	for _, s := range []string{" ", "  ", "   ", "     ", " a", "a ", "  a  ", " ! a ", " 1", " 'x' ", " ( a ) ", " a .b", " a . b ", "a. b", "a [ 0 ]", " f ( ) ", " a&& b", " ) ", " , ", " && "} {
+		emit(input{s + "}}", "corpus"})
 	}
 	// every ASCII character (and a few non-ASCII ones) in every lexical context,
 	// and every pair of ASCII characters: catches changes of a character class
